@@ -1,5 +1,6 @@
 import HdVerif.Proofs.Volume
 import HdVerif.Proofs.VolumeOrient
+import HdVerif.Proofs.VolumeChannels
 /-! # C08  Volume operations never move a voxel in physical space
 
 Property theorems only (helper lemmas: `Proofs/Volume.lean`; model: `Model/Volume.lean`).
@@ -256,6 +257,45 @@ theorem minimum_is_least (l : List Rat) (m : Rat) (h : statOf .minimum l = some 
 theorem maximum_is_greatest (l : List Rat) (m : Rat) (h : statOf .maximum l = some m) : m ∈ l ∧ ∀ x ∈ l, x ≤ m :=
   listMax_spec h
 
+/-! ## channel selection and permutation (volumes with one or two channel dimensions) -/
+
+/-- **permute_channel_axes** on two channel dimensions: either the identity, or cell `[x, y]` of the result is cell
+`[y, x]` of the input, the descriptors (with their values) and the channel shape are swapped with it, and the cell
+carries the same (descriptor, value) labels. -/
+theorem permute_channels_labels (v : Vol) (p : List Int) (w : VStep) (a b : Nat) (e0 e1 : Nat × List Nat)
+    (hs : v.cshape = [a, b]) (hc : v.chans = [e0, e1]) (h : permuteChannelsV v p = .ok w) (x y : Nat) :
+    (p = [0, 1] ∧ (∀ j, w.1.arr j [x, y] = v.arr j [x, y]) ∧ w.1.chans = v.chans ∧ w.1.cshape = v.cshape) ∨
+    (p = [1, 0] ∧ (∀ j, w.1.arr j [x, y] = v.arr j [y, x]) ∧ w.1.chans = [e1, e0] ∧ w.1.cshape = [b, a] ∧
+      (labels w.1 [x, y]).Perm (labels v [y, x])) :=
+  permuteChannels2_labels hs hc h x y
+
+/-- **get_channel** on the first / second of two channel dimensions and on a single one: the selected index is in
+range, the geometry is untouched, the result cell is the input cell with the selected index put back, the other
+descriptor keeps its values and the selected one is dropped (keepdims: keeps exactly the selected value). -/
+theorem get_channel_first_of_two (v : Vol) (w : VStep) (a b k : Nat) (e0 e1 : Nat × List Nat) (keep : Bool)
+    (hs : v.cshape = [a, b]) (hc : v.chans = [e0, e1]) (h : getChannelV v [(0, k)] keep = .ok w) (y : Nat) :
+    k < a ∧ w.1.geom = v.geom ∧
+    (keep = false → (∀ j, w.1.arr j [y] = v.arr j [k, y]) ∧ w.1.chans = [e1] ∧ w.1.cshape = [b]) ∧
+    (keep = true → (∀ j, w.1.arr j [0, y] = v.arr j [k, y]) ∧ w.1.cshape = [1, b] ∧
+      ∃ x, e0.2[k]? = some x ∧ w.1.chans = [(e0.1, [x]), e1]) :=
+  getChannel2_first keep hs hc h y
+
+theorem get_channel_second_of_two (v : Vol) (w : VStep) (a b k : Nat) (e0 e1 : Nat × List Nat) (keep : Bool)
+    (hs : v.cshape = [a, b]) (hc : v.chans = [e0, e1]) (h : getChannelV v [(1, k)] keep = .ok w) (y : Nat) :
+    k < b ∧ w.1.geom = v.geom ∧
+    (keep = false → (∀ j, w.1.arr j [y] = v.arr j [y, k]) ∧ w.1.chans = [e0] ∧ w.1.cshape = [a]) ∧
+    (keep = true → (∀ j, w.1.arr j [y, 0] = v.arr j [y, k]) ∧ w.1.cshape = [a, 1] ∧
+      ∃ x, e1.2[k]? = some x ∧ w.1.chans = [e0, (e1.1, [x])]) :=
+  getChannel2_second keep hs hc h y
+
+theorem get_channel_single (v : Vol) (w : VStep) (a k : Nat) (e0 : Nat × List Nat) (keep : Bool)
+    (hs : v.cshape = [a]) (hc : v.chans = [e0]) (h : getChannelV v [(0, k)] keep = .ok w) :
+    k < a ∧ w.1.geom = v.geom ∧
+    (keep = false → (∀ j, w.1.arr j [] = v.arr j [k]) ∧ w.1.chans = [] ∧ w.1.cshape = []) ∧
+    (keep = true → (∀ j, w.1.arr j [0] = v.arr j [k]) ∧ w.1.cshape = [1] ∧
+      ∃ x, e0.2[k]? = some x ∧ w.1.chans = [(e0.1, [x])]) :=
+  getChannel1 keep hs hc h
+
 /-! ## non-vacuity -/
 
 /-- a left-handed, rotated (axis-swapping), anisotropic geometry of shape 4 × 3 × 5 -/
@@ -276,5 +316,15 @@ example : ((SOp.ensureHandedness "RIGHT_HANDED" (some 1) none).applyGeom .patien
 example : (Dir.P, Dir.R, Dir.H) ∈ allOrients ∧ OnAxis g0.c0 .P ∧ OnAxis g0.c1 .R ∧ OnAxis g0.c2 .H := by
   refine ⟨by decide, ⟨3 / 2, by norm_num, by simp [g0, unitVec, V3.smul]⟩, ⟨1 / 2, by norm_num, by simp [g0, unitVec, V3.smul]; norm_num⟩,
     ⟨2, by norm_num, by simp [g0, unitVec, V3.smul]⟩⟩
+
+/-- a volume on `g0` with two channel dimensions (2 optical paths × 3 segments) -/
+def v0 : Vol := { geom := g0, arr := fun i c => i.i0 + 10 * i.i1 + 100 * i.i2 + (c.sum : Int), cshape := [2, 3],
+                  chans := [(0, [0, 1]), (1, [0, 1, 2])], isInt := true }
+
+example : (permuteChannelsV v0 [1, 0]).toBool = true ∧ (getChannelV v0 [(0, 1)] false).toBool = true ∧
+    (getChannelV v0 [(1, 2)] true).toBool = true := by decide +kernel
+
+example : ((SOp.pad (.nested [[1, 0], [0, 2], [3, 3]]) ⟨"MEDIAN", 0, true⟩).applyVol .patient v0).toBool = true := by
+  decide +kernel
 
 end HdVerif.C08
